@@ -193,6 +193,16 @@ fn exec(c: &Case, tmp: &PathBuf) -> Result<Out, String> {
             s.sort_bytes(&mut d).map_err(|e| e.to_string())?;
             Ok(Out { strs: d, ..Default::default() })
         }
+        "radix/bytes_deep" => {
+            // every string = p[5] copies of byte p[6], followed by its own suffix from c.strs
+            let prefix = vec![c.pp(6) as u8; c.pp(5) as usize];
+            let mut d: Vec<Vec<u8>> = c.strs.iter().map(|s| { let mut t = prefix.clone(); t.extend_from_slice(s); t }).collect();
+            let mut s = RadixSort::with_config(radix_config(c));
+            s.sort_bytes(&mut d).map_err(|e| e.to_string())?;
+            // report the suffixes (the prefix is checked to be intact)
+            if d.iter().any(|t| t.len() < prefix.len() || t[..prefix.len()] != prefix[..]) { return Err("a string lost its prefix".to_string()); }
+            Ok(Out { strs: d.iter().map(|t| t[prefix.len()..].to_vec()).collect(), ..Default::default() })
+        }
         "kv/u32" => {
             let mut d: Vec<(u32, u64)> = c.xs.iter().enumerate().map(|(i, &k)| (k as u32, i as u64)).collect();
             KeyValueRadixSort::<u32, u64>::new().sort_by_key(&mut d).map_err(|e| e.to_string())?;
@@ -362,6 +372,8 @@ fn exec(c: &Case, tmp: &PathBuf) -> Result<Out, String> {
 fn needs_isolation(c: &Case) -> bool {
     match c.cell.as_str() {
         "co/sort" | "co/oblivious" | "co/sort_u8" | "co/default" => true,
+        // recursion depth of the byte-string MSD sort
+        "radix/bytes_deep" => true,
         // counting sort sizes its table by the largest value
         "radix/u32" | "radix/u32_execute" => c.xs.iter().any(|&x| x >= (1 << 22)) && c.xs.len() <= c.pp(3) as usize,
         _ => false,
@@ -540,7 +552,7 @@ fn run_case(cx: &mut Ctx, c: &Case, force: bool) {
     };
     let family = cell.split('/').next().unwrap_or("");
     match family {
-        "radix" | "adv" | "co" | "ext" | "kv" if cell != "radix/bytes" && cell != "adv/str" => {
+        "radix" | "adv" | "co" | "ext" | "kv" if cell != "radix/bytes" && cell != "adv/str" && cell != "radix/bytes_deep" => {
             let want = if cell == "ext/rev" { let mut s = sorted(&c.xs); s.reverse(); s } else { sorted(&c.xs) };
             if out.ints != want {
                 let why = if out.ints.len() != want.len() { format!("length {} instead of {}", out.ints.len(), want.len()) }
@@ -652,7 +664,7 @@ fn run_case(cx: &mut Ctx, c: &Case, force: bool) {
                 cx.fail(c, &format!("byte strings not in sorted order / not a permutation: got {:?}", &out.strs[..out.strs.len().min(8)]));
             }
             // model comparison (also for the recorded LSD finding: the model orders by the 8-byte key exactly as the code does)
-            if out.strs.len() == c.strs.len() && c.strs.len() <= 40 && c.strs.iter().all(|s| s.len() <= 24) {
+            if cell != "radix/bytes_deep" && out.strs.len() == c.strs.len() && c.strs.len() <= 40 && c.strs.iter().all(|s| s.len() <= 24) {
                 let ins: Vec<Vec<u64>> = c.strs.iter().map(|s| s.iter().map(|&b| b as u64).collect()).collect();
                 let refs: Vec<&[u64]> = ins.iter().map(|v| v.as_slice()).collect();
                 let mut e: Vec<u64> = vec![];
@@ -892,6 +904,13 @@ fn all_cases(cx: &mut Ctx, thorough: bool) -> Vec<Case> {
         let mut c = Case::new("radix/bytes", &[8, 0, 10_000, 256, 0]);
         let n = gen_len(&mut r, &[2, 10]).min(300);
         c.strs = gen_strs(&mut r, n, k % 3 == 0);
+        cases.push(c);
+    }
+    // long common prefixes: the recursion depth of sort_bytes must not grow with the prefix length
+    for (plen, n) in [(150_000u64, 2usize), (40_000, 5), (300_000, 3)] {
+        if !thorough && plen > 200_000 { continue; }
+        let mut c = Case::new("radix/bytes_deep", &[8, 0, 10_000, 256, 0, plen, 97]);
+        c.strs = (0..n).map(|i| if i % 2 == 0 { vec![] } else { vec![r.below(3) as u8; (i % 3) as usize] }).collect();
         cases.push(c);
     }
     // ---- key-value ----
@@ -1165,7 +1184,7 @@ pub fn run(args: &Args) {
         if i % 97 == 0 { cx.sum.sample(json!({"cell": c.cell, "cfg": c.p, "n": c.xs.len() + c.a.len() + c.b.len() + c.runs.len() + c.strs.len()})); }
         cx.sum.dist(&format!("family={}", c.cell.split('/').next().unwrap_or("")));
     }
-    for cell in ["co/sort", "co/sort_u8", "co/default", "ext/rev", "lt/rev"] {
+    for cell in ["co/sort", "co/sort_u8", "co/default", "ext/rev", "lt/rev", "radix/bytes_deep"] {
         cx.sum.cell_status(cell, "S-only");
     }
     for cell in ["adv/str", "ext/rev", "kway/inter"] { cx.sum.cell_status(cell, "finding"); }
